@@ -187,7 +187,7 @@ def _prep(args):
 
 
 class CaseTimeout(BaseException):
-    """raised by SIGALRM inside a worker: one generated case exceeded its time budget (BaseException so that no
+    """raised by SIGVTALRM (process CPU time, so that an oversubscribed machine does not turn slow into 'timed out') inside a worker: one generated case exceeded its time budget (BaseException so that no
     `except Exception` in sympy / bartiq / the oracle swallows it)"""
 
 
@@ -209,8 +209,8 @@ def _work(args):
     res = Result()
     budget = getattr(mod, "CASE_BUDGET_S", CASE_BUDGET_S)
     if budget:
-        signal.signal(signal.SIGALRM, _on_alarm)
-        signal.alarm(budget)
+        signal.signal(signal.SIGVTALRM, _on_alarm)
+        signal.setitimer(signal.ITIMER_VIRTUAL, budget)
     try:
         spec = mod.gen(seed, extra)
         kw = {}
@@ -251,7 +251,7 @@ def _work(args):
         res.samples.append({"harness_exception": traceback.format_exc()[-800:], "seed": seed})
     finally:
         if budget:
-            signal.alarm(0)
+            signal.setitimer(signal.ITIMER_VIRTUAL, 0)
     return (dict(res.stats), jsonable(res.violations), jsonable(res.disagreements), jsonable(res.nontrivial), jsonable(res.samples))
 
 
